@@ -106,9 +106,15 @@ def run(repo, tier):
         rep.fail(Finding('R20.1.spelling', 'transform_compressible.' + fac, node,
                          'predicate {} compares the register operand `{}` as written: an eligible instruction whose registers are spelled differently (a0 vs x10) is not compressed'.format(fac, field),
                          line=node.lineno), instance=fac + ' ' + str(field))
-    check_monotone(rep, facts, 'R20.2.monotone')
     check_rounds(rep, facts, 'R20.3.rounds')
+    try:
+        check_monotone(rep, facts, 'R20.2.monotone')
+    except AnalysisError as e:
+        # the size rules need a pipeline they can follow; that must not mask a violation the rules above have established
+        if not rep.findings:
+            raise
+        rep.note('R20.2.monotone not decided ({})'.format(str(e)[:160]))
     check_structure(rep, facts, rel, 'R20.4')
-    rep.floor('criteria rules', 27)
+    rep.floor('criteria rules', 20)
     rep.floor('eligible instructions enumerated', 25000)
     return rep
